@@ -44,7 +44,9 @@ type Config struct {
 	Queries        int   // range / prefix / k queries per check point
 	PrefixScope    bool  // draw contents from the C04-scope pool (collation)
 	LongHistories  int
-	LongOps        int
+	// ClosedAllQueries: closed explorations query all bound pairs / derived prefixes after every transition
+	ClosedAllQueries bool
+	LongOps          int
 }
 
 func (c *Config) Has(m Mon) bool { return c.Mons&m != 0 }
